@@ -1,13 +1,14 @@
 (* C16 — All entry points agree on what a given argument list prints as.
    Proved on the model: Fprint(f) is Sprint(f) (one evaluator, the bytes are handed over once);
    StringBuilder.Print(f) yields exactly the bytes of Sprint(f) (the inner printer's result is
-   written in raw mode, which neither escapes nor envelopes).  The nested routes (SafePrinter.
-   Print(f) inside Sprintfn / SafeFormat) run the same doPrint(f) on the caller's buffer and hand
-   the mode back (D1); their equality with Sprint(f) up to merging of adjacent envelopes is
-   decided by the correspondence and the black-box predicate (_partial), as are the single Write
+   written in raw mode, which neither escapes nor envelopes).  SafePrinter.Print(f) inside Sprintfn yields exactly
+   the bytes of Sprint(f) (C16_sprintfn_print_is_sprint).  The route through a SafeFormat method
+   runs the same doPrint(f) on the caller's buffer and hands the mode back (D1); its equality
+   with Sprint(f) up to merging of adjacent envelopes is decided by the correspondence and the
+   black-box predicate, as are the single Write
    and the (n, err) pass-through of the F variants (glue outside the model). *)
 From Redact Require Import Bytes Tokens Utf8 Buffer Ops BufInv LBuf Printer Api Forward.
-From Redact Require Import RoutesP Hoare Keeps.
+From Redact Require Import RoutesP Hoare Keeps NestedRouteP.
 Import List ListNotations.
 
 Theorem C16_fprint_is_sprint : fprint = sprint /\ fprintf = sprintf.
@@ -27,6 +28,23 @@ Print Assumptions C16_builder_printf.
 Theorem C16_nested_route_hands_mode_back_partial : forall rec c, keeps (nested rec c).
 Proof. exact keeps_nested. Qed.
 Print Assumptions C16_nested_route_hands_mode_back_partial.
+
+(* The nested-printer route inside Sprintfn: the same bytes as Sprint(f) - the Buffer history is
+   Sprint(f)'s with one more SetMode before the final Take - whenever Sprint(f)'s text does not
+   end inside a UTF-8 sequence. *)
+Theorem C16_sprintfn_print_is_sprint : forall k env a o o',
+  sprint (S k) env a = ROk o' -> sprintfn (S (S k)) env [APrint a] = ROk o ->
+  rawok (o_log o') = true -> last_invalid (o_bytes o') = false ->
+  o_bytes o = o_bytes o' /\ o_log o = removelast (o_log o') ++ [OMode MUnsafe; OTake].
+Proof. exact sprintfn_print_route. Qed.
+Print Assumptions C16_sprintfn_print_is_sprint.
+
+Theorem C16_sprintfn_printf_is_sprintf : forall k env f a o o',
+  sprintf (S k) env f a = ROk o' -> sprintfn (S (S k)) env [APrintf f a] = ROk o ->
+  rawok (o_log o') = true -> last_invalid (o_bytes o') = false ->
+  o_bytes o = o_bytes o' /\ o_log o = removelast (o_log o') ++ [OMode MUnsafe; OTake].
+Proof. exact sprintfn_printf_route. Qed.
+Print Assumptions C16_sprintfn_printf_is_sprintf.
 
 Example C16_nonvacuous :
   let a := [VStr (mkT [] false false) [97]%N; VInt (mkT [105;110;116]%N false false) 7%Z] in
